@@ -599,6 +599,10 @@ namespace bluetoe
                 {
                     const auto next = ( next_buffer_ + 1 ) % number_of_concurrent_flashs;
 
+                    // the data that follows a completed page must still be within the flashable regions
+                    if ( !MemRegions::acceptable( start_address, start_address + 1 ) )
+                        return false;
+
                     if ( buffers_[ next ].empty() )
                     {
                         ++consecutive_;
